@@ -3,6 +3,9 @@ def probs(d):
 
 
 RULES = [
+    ("C20-F4", "a function-local variable spelled like a top-level alias (Signal r2 = r; ... func g(..) { Signal r2 = ..}) marks "
+               "the top-level name as referenced: the alias gets no anchor although nothing consumes it",
+     lambda c, d: c["consumption"] == "alias-local-clash"),
     ("C20-F1", "the same expression declared under two names (or, for bundle each/filter results, repeated anonymously in a later statement): with optimisation CSE removes one producer and "
                "the second name gets no anchor (not exposed)",
      lambda c, d: c["consumption"] in ("twice-same-expr", "repeated-anonymously") and c["optimize"] and any("not exposed" in p for p in probs(d))),
